@@ -158,9 +158,9 @@ def gen_ops(rng, n):
 
 def monitor(ops, obs):
     """Property text on one trace. Returns (worst_excess_ticks, window, explained_by_stale_full)
-    for the worst window without a limit change; excess > 0 means the strict bound fails."""
+    for the worst window without a limit change; excess > 0 means the strict bound fails.
+    Only windows that start and end at a grant can be worst, so only grant events are paired."""
     worst = None
-    # segments between limit changes
     seg = []
     segs = []
     for (kind, v), o in zip(ops, obs):
@@ -168,22 +168,22 @@ def monitor(ops, obs):
             if seg:
                 segs.append(seg)
             seg = []
-        else:
-            seg.append((v, o))
+        elif o[0] > 0 or o[4]:
+            seg.append((v, o[0], o[2], o[4]))
     if seg:
         segs.append(seg)
     for seg in segs:
-        Lbps = seg[0][1][2]
+        Lbps = seg[0][2]
         if Lbps == 0:
             continue
         n = len(seg)
-        # prefix sums
         pre = [0]
-        for _, o in seg:
-            pre.append(pre[-1] + o[0])
-        # only windows starting at a grant time and ending at a grant time matter
+        stale_pre = [0]
+        for t, g, _, st in seg:
+            pre.append(pre[-1] + g)
+            stale_pre.append(stale_pre[-1] + (1 if st else 0))
         for i in range(n):
-            if seg[i][1][0] == 0 or (i > 0 and seg[i - 1][0] == seg[i][0]):
+            if i > 0 and seg[i - 1][0] == seg[i][0]:
                 continue
             t0 = seg[i][0]
             for j in range(i, n):
@@ -193,10 +193,19 @@ def monitor(ops, obs):
                 granted = pre[j + 1] - pre[i]
                 excess = granted * TICK - (Lbps * T + Lbps * TICK)
                 if excess > 0 and (worst is None or excess > worst[0]):
-                    stale = any(seg[k][1][4] for k in range(i, j + 1))
+                    stale = stale_pre[j + 1] - stale_pre[i] > 0
                     worst = (excess, {'limit_bps': Lbps, 't0': t0, 'T': T, 'granted': granted,
                                       'bound': (Lbps * T) // TICK + Lbps}, stale)
     return worst
+
+
+def steady_ops(kbps, gap, seconds, t0=0):
+    ops = [('L', kbps)]
+    t = t0
+    for _ in range(int(seconds * TICK // max(gap, 1))):
+        t += gap
+        ops.append(('T', t))
+    return ops
 
 
 def coq_cases(cases):
@@ -379,6 +388,21 @@ def run(run: Run):
         run.add_finding(Finding('window-bound-exceeded', f'granted {window["granted"]} B in a window allowing {window["bound"]} B',
                                 {'ops': small, 'window': window}, observed=window['granted'], expected=f'<= {window["bound"]}'))
 
+    # long steady polling under low limits (accumulated rounding shows only over many refills)
+    steady = [(1, 2621, 12), (1, 1000, 6), (2, 5000, 12), (1, 10485, 30), (5, 2621, 6), (3, 333, 3)]
+    if run.tier == 'thorough' or not proved:
+        steady += [(k, g, 20) for k in (1, 2, 3, 7, 10) for g in (500, 1311, 2621, 7000, 10485, 20000)]
+    for kbps, gap, secs in steady:
+        ops = steady_ops(kbps, gap, secs)
+        obs = run_impl(ops, 'upload', 4)
+        run.case({'steady': [kbps, gap, secs]}, kind='steady')
+        w = monitor(ops, obs)
+        if w and not (w[2] and w[0] <= 128 * TICK):
+            run.add_finding(Finding('window-bound-exceeded-steady', f'{w[1]["granted"]} B granted in a window allowing {w[1]["bound"]} B '
+                                    f'({kbps} KiB/s, polls every {gap} ticks of 2^-20 s)',
+                                    {'kbps': kbps, 'gap_ticks': gap, 'seconds': secs, 'window': w[1]},
+                                    observed=w[1]['granted'], expected=f'<= {w[1]["bound"]}'))
+
     # bounded wait on the implementation: 18 polls INTERVAL apart always yield a grant
     import aioslsk.network.rate_limiter as rl_mod
     iv = int(rl_mod.INTERVAL * TICK)
@@ -454,6 +478,18 @@ def run(run: Run):
         # unlimited must not be throttled: no virtual time may pass
         if kbps == 0 and deliv and deliv[-1][0] != deliv[0][0]:
             run.add_finding(Finding('unlimited-throttled', 'virtual time passed during an unlimited transfer', desc))
+    for upload in (True, False):
+        for nconn in ((1, 4) if run.tier == 'quick' else (1, 2, 3, 4)):
+            desc = {'kbps': 100, 'connections': nconn, 'size': 150000, 'upload': upload, 'changes': [(0.5, 1)]}
+            try:
+                deliv, segments = stack_run(run.rng, 100, nconn, 150000, upload, [(0.5, 1)])
+            except Exception as e:
+                run.add_finding(Finding('stack-stall', f'transfer did not finish after lowering the limit: {type(e).__name__}: {e}', desc))
+                continue
+            run.case({'stack': desc}, kind='stack-lowering')
+            ex = stack_monitor(deliv, segments)
+            if ex > 128 * TICK:
+                run.add_finding(Finding('stack-window-bound', f'file connections exceeded the window bound by {ex // TICK} B after the limit was lowered', desc))
     for upload in (True, False):
         desc = {'kbps': 0, 'connections': 2, 'size': 50000, 'upload': upload}
         deliv, _ = stack_run(run.rng, 0, 2, 50000, upload)
